@@ -20,6 +20,17 @@ REQUEST_METHODS = {
 }
 
 
+def path_to_uri(path):
+    """file URI as a client builds it: path percent-encoded (blanks, non-ASCII, ...)"""
+    from urllib.parse import quote
+    return "file://" + quote(path)
+
+
+def uri_to_path(uri):
+    from urllib.parse import unquote
+    return unquote(uri[len("file://"):]) if uri.startswith("file://") else None
+
+
 def frame(obj):
     body = json.dumps(obj, ensure_ascii=False, separators=(",", ":")).encode("utf-8")
     return b"Content-Length: %d\r\n\r\n" % len(body) + body
@@ -110,7 +121,7 @@ class Server:
 
     # ---- protocol ---------------------------------------------------------------------
     def initialize(self, root_uri=True):
-        params = {"processId": None, "capabilities": {}, "rootUri": ("file://" + self.root_abs) if root_uri else None}
+        params = {"processId": None, "capabilities": {}, "rootUri": path_to_uri(self.root_abs) if root_uri else None}
         self.send({"jsonrpc": "2.0", "id": 0, "method": "initialize", "params": params})
         r = self.recv()
         self.send({"jsonrpc": "2.0", "method": "initialized", "params": {}})
